@@ -77,6 +77,14 @@ func scalarString(v any) (string, bool) {
 func flatten(root *Node, m map[string]any, tag string, out url.Values) (bool, string) {
 	for _, f := range sortedFields(root) {
 		key := fieldKeyFor(f, tag)
+		// a list sent only under "key[]" (see bracketVariant): rendered under exactly that parameter name
+		if alt, ok := m[key+"[]"].([]any); ok && !strings.HasSuffix(key, "[]") {
+			for _, e := range alt {
+				if s, ok := scalarString(e); ok && s != "" {
+					out[key+"[]"] = append(out[key+"[]"], s)
+				}
+			}
+		}
 		v, present := m[key]
 		if !present || v == nil {
 			continue // a flat source cannot say "null": render as missing
@@ -391,6 +399,16 @@ func tagVariants(fields []string, k int, withBracket bool) []map[string]int {
 	}
 	rec(0, map[string]int{})
 	return out
+}
+
+// hasBracketTag: does the assignment give some field a source tag with a "[]" suffix (configuration 4)?
+func hasBracketTag(tags map[string]int) bool {
+	for k, v := range tags {
+		if k != shapeKey && v == 4 {
+			return true
+		}
+	}
+	return false
 }
 
 func uniformTags(fields []string, cfg int) map[string]int {
